@@ -279,7 +279,7 @@ theorem opConcat_clean : OpClean opConcat := by
     first
     | op_clean_case h
     | (cases h
-       exact newConcat_clean (concatLoop_inv ‹_› (argList_wf hw) ConcatInv.nil) ‹_›)
+       exact newConcat_clean (concatLoop_inv ‹_› (argList_all_wf hw) ConcatInv.nil) ‹_›)
 
 theorem atom_of_atomLen {v : Val} {n : String} {k : Nat} (h : atomLen v n = .ok k) : ∃ b i, v = .atom b i := by
   cases v with
@@ -341,7 +341,7 @@ theorem unknownFinish_clean {flags cost mult : Nat} {c : Ctr} {e : Err}
 
 theorem opUnknown_clean (op : Bytes) : OpClean (opUnknown op) := by
   intro flags m args c e _ h
-  simp only [opUnknown_eq] at h
+  simp only [opUnknown_eq_parts] at h
   split at h
   · cases h; rfl
   · split at h
@@ -409,7 +409,7 @@ theorem opIf_wf : OpWf opIf := by
   fun_cases opIf flags m args c <;> intro h
   · cases h
   · cases h
-    have := getArgs3_wf hw ‹_›
+    have := getArgs3_args_wf hw ‹_›
     refine ⟨?_, CtrLe.refl _⟩
     show Val.wf (if _ then _ else _) = true
     split
@@ -423,7 +423,7 @@ theorem opCons_wf : OpWf opCons := by
   · cases h
   · cases h
   · cases h
-    have := getArgs2_wf hw ‹_›
+    have := getArgs2_args_wf hw ‹_›
     obtain ⟨rfl, hc⟩ := allocPair_wf ‹_›
     exact ⟨Val.wf_pair.2 this, hc⟩
 
@@ -433,7 +433,7 @@ theorem opFirst_wf : OpWf opFirst := by
   fun_cases opFirst flags m args c <;> intro h
   · cases h
   · cases h
-  · cases h; exact ⟨first_wf (getArgs1_wf hw ‹_›) ‹_›, CtrLe.refl _⟩
+  · cases h; exact ⟨first_wf (getArgs1_args_wf hw ‹_›) ‹_›, CtrLe.refl _⟩
 
 theorem opRest_wf : OpWf opRest := by
   refine .of fun flags m args c r hw h => ?_
@@ -441,7 +441,7 @@ theorem opRest_wf : OpWf opRest := by
   fun_cases opRest flags m args c <;> intro h
   · cases h
   · cases h
-  · cases h; exact ⟨rest_wf (getArgs1_wf hw ‹_›) ‹_›, CtrLe.refl _⟩
+  · cases h; exact ⟨rest_wf (getArgs1_args_wf hw ‹_›) ‹_›, CtrLe.refl _⟩
 
 theorem opListp_wf : OpWf opListp := by
   refine .of fun flags m args c r hw h => ?_
@@ -547,7 +547,7 @@ theorem opConcat_wf : OpWf opConcat := by
   · cases h
   · cases h
   · cases h
-    exact newConcat_wf (concatLoop_inv ‹_› (argList_wf hw) ConcatInv.nil) ‹_›
+    exact newConcat_wf (concatLoop_inv ‹_› (argList_all_wf hw) ConcatInv.nil) ‹_›
 
 theorem opSubstr_wf : OpWf opSubstr := by
   refine .of fun flags m args c r hw h => ?_
